@@ -25,7 +25,9 @@ def variants(n):
     # complete ACLs: all owned by 2; hand-over of single parameters; an entry for a non-parameter key
     return {tlagen.rec(owners=owners(2), extra=0),
             tlagen.rec(owners=owners(1, k5=2, k15=2), extra=0),
-            tlagen.rec(owners=owners(1, k16=min(3, n), k17=2), extra=2)}
+            tlagen.rec(owners=owners(1, k16=min(3, n), k17=2), extra=2),
+            # a hand-over that DROPS entries (owner 0 = no entry): nobody may change those parameters any more
+            tlagen.rec(owners=owners(2, k2=0, k5=0, k17=0), extra=0)}
 
 
 def gcfg(n=3, **over):
